@@ -186,12 +186,8 @@ func (v map_[K, V]) RemoveValues(keys Sequential[K]) Sequential[V] {
 }
 
 func (v map_[K, V]) RemoveAll() {
-	var keys = v.GetKeys()
-	var iterator = keys.GetIterator()
-	for iterator.HasNext() {
-		var key = iterator.GetNext()
-		delete(v, key)
-	}
+	// Deleting key by key would leave behind a key that is not equal to itself (NaN).
+	clear(v)
 }
 
 // Sequential
